@@ -108,3 +108,67 @@ V("C04", "C04.R7", "c04-unknown-buf-arg", "shroud/statements.py",
         buf_args=["context"],''',
   '''        name="c_native_**_out_buf",
         buf_args=["cdesc"],''', "fire", "c_native_**_out_buf")
+
+# ---------------------------------------------------------------------------
+# C05
+# ---------------------------------------------------------------------------
+V("C05", "C05.R1", "c05-field-typo-table", "shroud/statements.py",
+  '"{c_var_context}->size = 1;",\n            "{c_var_context}->rank = 0;",\n        ],\n    ),\n\n    dict(\n        # char *func() +deref(raw)',
+  '"{c_var_contxt}->size = 1;",\n            "{c_var_context}->rank = 0;",\n        ],\n    ),\n\n    dict(\n        # char *func() +deref(raw)',
+  "fire", "c_char_*_result_buf_allocatable")
+V("C05", "C05.R1", "c05-field-def-removed", "shroud/statements.py",
+  '''    if attrs["len_trim"]:
+        fmt.c_var_trim = attrs["len_trim"]''',
+  '''    if attrs["len_trim"]:
+        pass''', "fire", "")
+V("C05", "C05.R1", "c05-inline-field-typo", "shroud/wrapc.py",
+  'append_format(proto_list, "int {c_var_trim}", fmt)',
+  'append_format(proto_list, "int {c_var_ltrim}", fmt)', "fire", "build_proto_list")
+V("C05", "C05.R2", "c05-helper-dropped", "shroud/statements.py",
+  '''        name="c_char_*_result_buf",
+        buf_args=["arg", "len"],
+        c_helper="ShroudStrCopy",''',
+  '''        name="c_char_*_result_buf",
+        buf_args=["arg", "len"],''', "fire", "c_char_*_result_buf")
+V("C05", "C05.R2", "c05-silent-helper-reorder", "shroud/statements.py",
+  'cxx_local_var="pointer",\n        c_helper="ShroudStrAlloc ShroudStrCopy ShroudStrFree",',
+  'cxx_local_var="pointer",\n        c_helper="ShroudStrFree ShroudStrAlloc ShroudStrCopy",', "silent")
+V("C05", "C05.R3", "c05-header-dropped", "shroud/statements.py",
+  '''        name="c_char_*_result_buf_allocatable",
+        buf_args=["context"],
+        c_impl_header=["<string.h>"],
+        cxx_impl_header=["<cstring>"],''',
+  '''        name="c_char_*_result_buf_allocatable",
+        buf_args=["context"],
+        c_impl_header=["<string.h>"],''', "fire", "c_char_*_result_buf_allocatable")
+V("C05", "C05.R3", "c05-helper-include-dropped", "shroud/whelpers.py",
+  '''    ShroudStrBlankFill=dict(
+        c_include=["<string.h>"],''',
+  '''    ShroudStrBlankFill=dict(
+        c_include=["<stdlib.h>"],''', "fire", "ShroudStrBlankFill")
+V("C05", "C05.R4", "c05-fmodule-dropped", "shroud/statements.py",
+  '''        name="f_native_*_result_pointer",
+        f_module=dict(iso_c_binding=["C_PTR", "c_f_pointer"]),''',
+  '''        name="f_native_*_result_pointer",
+        f_module=dict(iso_c_binding=["C_PTR"]),''', "fire", "f_native_*_result_pointer")
+V("C05", "C05.R5", "c05-dependent-helper-typo", "shroud/whelpers.py",
+  '''        dependent_helpers=["ShroudLenTrim"],
+    ),
+
+    ShroudStrFree=dict(''',
+  '''        dependent_helpers=["ShroudLenTrimm"],
+    ),
+
+    ShroudStrFree=dict(''', "fire", "ShroudStrAlloc")
+V("C05", "C05.R5", "c05-copy-array-cxx-only", "shroud/whelpers.py",
+  '''        # via an interface for each cxx_type.
+        source=wformat(''',
+  '''        # via an interface for each cxx_type.
+        cxx_source=wformat(''', "fire", "copy_array")
+V("C05", "C05.R6", "c05-option-renamed", "shroud/ast.py",
+  'C_var_trim_template="L{c_var}",', 'C_var_ltrim_template="L{c_var}",', "fire", "C_var_trim_template")
+V("C05", "C05.R7", "c05-linelen-wrong-option", "shroud/wrapf.py",
+  "self.linelen = newlibrary.options.F_line_length",
+  "self.linelen = newlibrary.options.C_line_length", "fire", "Wrapf.linelen")
+V("C05", "C05.R8", "c05-visitor-removed", "shroud/todict.py",
+  "    def visit_TypedefNode(self, node):", "    def xvisit_TypedefNode(self, node):", "fire", "TypedefNode")
